@@ -160,6 +160,90 @@ data_status(struct ly_ctx *ctx, int touch)
     }
 }
 
+static int
+cmp_str(const void *a, const void *b) { return strcmp(*(const char * const *)a, *(const char * const *)b); }
+
+/* names, sorted, without duplicates, comma separated */
+static void
+oput_nameset(const char **names, int n)
+{
+    int i, first = 1;
+
+    qsort(names, n, sizeof *names, cmp_str);
+    for (i = 0; i < n; i++) {
+        if (i && !strcmp(names[i], names[i - 1])) continue;
+        oput("%s%s", first ? "" : ",", names[i]);
+        first = 0;
+    }
+}
+
+/* modules other than `own` that contributed a node below `node` (augments compiled into it) */
+static void
+collect_foreign(const struct lysc_node *node, const struct lys_module *own, const char **names, int *n, int max)
+{
+    const struct lysc_node *ch;
+
+    for (ch = lysc_node_child(node); ch; ch = ch->next) {
+        if (ch->module != own && *n < max) names[(*n)++] = ch->module->name;
+        collect_foreign(ch, own, names, n, max);
+    }
+}
+
+static void
+oput_modref_array(struct lys_module **arr)
+{
+    LY_ARRAY_COUNT_TYPE u;
+
+    if (!arr || !LY_ARRAY_COUNT(arr)) { oput("-"); return; }
+    LY_ARRAY_FOR(arr, u) oput("%s%s@%s", u ? "," : "", arr[u]->name, arr[u]->revision ? arr[u]->revision : "-");
+}
+
+/* `A<augmented_by>:V<deviated_by>:N<node>(<augmenting modules>/<deviating modules>)+...`: the two arrays of struct lys_module
+ * in array order; for an implemented, compiled module every top-level data node of the compiled tree with the modules that own
+ * a node below it (augments) and the modules of deviated_by one of whose deviations addresses a node below it and was
+ * applied (the generated deviations add a default) */
+static void
+amend_status(struct ly_ctx *ctx, const struct lys_module *m)
+{
+    const struct lysc_node *top;
+    const char *names[64];
+    int n, first = 1;
+    LY_ARRAY_COUNT_TYPE u, v;
+
+    oput(":A"); oput_modref_array(m->augmented_by);
+    oput(":V"); oput_modref_array(m->deviated_by);
+    oput(":N");
+    if (!m->implemented || !m->compiled || !m->compiled->data) { oput("-"); return; }
+    for (top = m->compiled->data; top; top = top->next) {
+        char pfx[300];
+        size_t pl;
+
+        oput("%s%s(", first ? "" : "+", top->name);
+        first = 0;
+        n = 0;
+        collect_foreign(top, m, names, &n, 64);
+        oput_nameset(names, n);
+        oput("/");
+        n = 0;
+        pl = snprintf(pfx, sizeof pfx, "/%s:%s/", m->name, top->name);
+        LY_ARRAY_FOR(m->deviated_by, u) {
+            const struct lys_module *d = m->deviated_by[u];
+            if (!d->parsed) continue;
+            LY_ARRAY_FOR(d->parsed->deviations, v) {
+                const char *id = d->parsed->deviations[v].nodeid;
+                const struct lysc_node *t;
+                if (strncmp(id, pfx, pl)) continue;
+                t = lys_find_path(ctx, NULL, id, 0);
+                if (t && (t->nodetype == LYS_LEAF) && ((const struct lysc_node_leaf *)t)->dflt && n < 64) names[n++] = d->name;
+            }
+        }
+        oput_nameset(names, n);
+        oput(")");
+    }
+}
+
+static uint16_t g_cc0;
+
 static void
 snapshot(struct ly_ctx *ctx, int rc, uint16_t cc0, int touch)
 {
@@ -192,6 +276,7 @@ snapshot(struct ly_ctx *ctx, int rc, uint16_t cc0, int touch)
         } else {
             oput(":c-");
         }
+        amend_status(ctx, m);
     }
     oput("|h=%08x|cc=%u", ly_ctx_get_modules_hash(ctx), (unsigned)(uint16_t)(ly_ctx_get_change_count(ctx) - cc0));
     data_status(ctx, touch);
@@ -247,6 +332,7 @@ history(const char *id, char *spec, void (*tail)(struct ly_ctx *ctx, const char 
                 if (ly_ctx_compile(ctx)) { vp_reply(id, "err CtxNew"); goto done; }
             }
             cc0 = ly_ctx_get_change_count(ctx);
+            g_cc0 = cc0;
         }
         if (!strcmp(tok[0], "P") && nt >= 4) {
             int j;
@@ -296,6 +382,7 @@ history(const char *id, char *spec, void (*tail)(struct ly_ctx *ctx, const char 
         if (!ctx) {
             if (ly_ctx_new(NULL, (uint16_t)(flags | LY_CTX_DISABLE_SEARCHDIRS), &ctx)) { vp_reply(id, "err CtxNew"); goto done; }
             ly_ctx_set_module_imp_clb(ctx, imp_clb, NULL);
+            g_cc0 = ly_ctx_get_change_count(ctx);
         }
         tail(ctx, wdir);
     }
